@@ -13,6 +13,7 @@ from corankco.element import Element
 from corankco.ranking import Ranking
 from corankco.algorithms.pairwisebasedalgorithm import PairwiseBasedAlgorithm
 from corankco.algorithms.exact.exactalgorithmcplexforpaperoptim1 import ExactAlgorithmCplexForPaperOptim1
+from corankco.algorithms.exact.exactalgorithmpulp import ExactAlgorithmPulp
 
 
 class ParCons(RankAggAlgorithm, PairwiseBasedAlgorithm):
@@ -108,7 +109,7 @@ class ParCons(RankAggAlgorithm, PairwiseBasedAlgorithm):
                     res.extend(cons_ext)
                     optimal = False
                 else:
-                    cons_ext = ExactAlgorithmCplexForPaperOptim1().compute_consensus_rankings(
+                    cons_ext = ParCons._exact_algorithm().compute_consensus_rankings(
                         sub_problem, scoring_scheme, True).consensus_rankings[0]
                     res.extend(cons_ext)
 
@@ -121,6 +122,18 @@ class ParCons(RankAggAlgorithm, PairwiseBasedAlgorithm):
                          dataset=dataset,
                          scoring_scheme=scoring_scheme,
                          att=hash_information)
+
+    @staticmethod
+    def _exact_algorithm() -> RankAggAlgorithm:
+        """
+
+        :return: the exact algorithm to use on the sub-problems: Cplex version if cplex can be imported, PuLP otherwise
+        """
+        try:
+            import cplex  # noqa: F401 # pylint: disable=import-outside-toplevel,unused-import
+            return ExactAlgorithmCplexForPaperOptim1()
+        except ImportError:
+            return ExactAlgorithmPulp()
 
     def get_full_name(self) -> str:
         """
